@@ -9,6 +9,11 @@ pub mod refmodel;
 pub use report::{Collector, Ctx, Mode, Tier};
 pub use serde_json::{json, Value};
 
+/// parse JSON text (so that check crates need no direct serde_json dependency)
+pub fn serde_json_from_str(s: &str) -> Result<Value, String> {
+    serde_json::from_str(s).map_err(|e| e.to_string())
+}
+
 use std::panic::{catch_unwind, AssertUnwindSafe};
 
 /// Install a panic hook that prints nothing: panics of the subject are observations.
